@@ -51,11 +51,22 @@ Kinds == {"grouping", "typedef", "identity", "feature"}
              both spellings mean the same, so the meaning below does not look at it.
      subs  : submodules supplied <<s, b>>          (s belongs-to b)
      inc   : include statements <<u, s>>           (u a module or submodule)
-     defs  : definitions [k, n, home, refs, nest]  (k in Kinds; home is the SCOPE in
+     defs  : definitions [k, n, home, refs, pos]  (k in Kinds; home is the SCOPE in
              which the definition is written: a module "m1", or - groupings and
              typedefs - a container of it "m1.x1"; refs a set of [m, n]: "prefix of
-             module m : n", unprefixed if m is the home's module; nest: a grouping's
-             uses are written inside its container)
+             module m : n", unprefixed if m is the home's module; pos: the syntactic
+             POSITION in which the definition's references stand -
+               grouping: "direct" (uses directly in the grouping), "container" (inside its container k<n>),
+                         "list" (inside a list q<n>), "choice" (inside choice o<n> / case w<n>), "augment"
+                         (uses h<n> { augment h<n> { uses ... } }: inside an augment below a uses of a helper
+                         grouping), "inner" (inside a nested grouping i<n> that the grouping itself uses)
+               typedef : "direct" (type b) or "union" (a member of a union)
+               identity, feature: "direct")
+     rpos  : the position of the using data nodes - grouping: uses in the module's "container", in a "list", in a
+             "choice"/case, in an "rpc" input, in a "notification"; typedef: type of a "leaf", of a "leaf-list", member
+             of a "union"; identity: identityref of a "leaf", inside a "union", through a "typedef"; feature:
+             if-feature on a "leaf", "leaf-list", "container", "list"  (roots written in a container scope keep to
+             positions that exist there)
      roots : uses from data nodes [home, k, m, n]  (k in Kinds or "subtype"; home is
              the scope in which the using data node is written)
              Scoping (RFC 6020 5.5, 6.2.1): an unprefixed name is looked up in the scope
@@ -134,20 +145,46 @@ RECURSIVE GExp(_, _, _, _, _)
 GExp(I, g, P, u, via) ==
   LET v2 == via \o ">" \o g.n
       kp == P \o "/" \o u \o ":k" \o g.n
-  IN {Node(kp, "c", v2, "", {}), Node(kp \o "/" \o u \o ":l" \o g.n, "l", v2, "d0", {})}
-     \cup UNION {GExp(I, TargetDef(I, "grouping", g.home, r), IF g.nest THEN kp ELSE P, u, v2) : r \in g.refs}
+      q(x) == "/" \o u \o ":" \o x \o g.n
+      \* what the position adds to the schema, and below which path the used groupings' nodes land
+      scaffold == IF g.refs = {} THEN {}
+                  ELSE CASE g.pos = "list" -> {Node(P \o q("q"), "list", v2, "", {}), Node(P \o q("q") \o "/" \o u \o ":id", "l", v2, "", {})}
+                         [] g.pos = "augment" -> {Node(P \o q("h"), "c", v2, "", {})}
+                         [] OTHER -> {}
+      \* (choice and case are not nodes of the data tree: what stands inside them is a child of the enclosing data
+      \* node, also for the uniqueness of sibling names, RFC 6020 7.9.2)
+      under == CASE g.pos = "container" -> kp [] g.pos = "list" -> P \o q("q")
+                 [] g.pos = "augment" -> P \o q("h") [] OTHER -> P
+  IN {Node(kp, "c", v2, "", {}), Node(kp \o "/" \o u \o ":l" \o g.n, "l", v2, "d0", {})} \cup scaffold
+     \cup UNION {GExp(I, TargetDef(I, "grouping", g.home, r), under, u, v2) : r \in g.refs}
 \* identities derived (transitively) from identity i: "module:name"
 Derived(I, i) == LET E == {<<e[2], e[1]>> : e \in KEdges(I, "identity")} IN {x[1] \o ":" \o x[2] : x \in Reach1(E, i)}
 RECURSIVE FeatOn(_, _)
 FeatOn(I, f) == f.n \notin I.off /\ \A r \in f.refs : FeatOn(I, TargetDef(I, "feature", f.home, r))
+\* position of a using data node (rpc and notification only exist at the top level of a module)
+RPos(I, r) == IF Scoped(r.home) /\ I.rpos \in {"rpc", "notification"} THEN "container" ELSE I.rpos
+\* Nodes whose path starts with "#" (below an rpc or a notification) are not part of the data tree: they take part
+\* in the sibling-name check but not in the schema that is compared.
 RootNodes(I, r) ==
   LET P == ScopeTop(r.home)  u == ModH(r.home)  lp(x) == P \o "/" \o u \o ":" \o x \o r.n
-      T(k) == TargetDef(I, k, r.home, Ref(r.m, r.n)) IN
-  CASE r.k = "grouping" -> GExp(I, T("grouping"), P, u, "")
-    [] r.k = "typedef"  -> {Node(lp("rt"), "l", "", "", {})}
+      sub(x) == "/" \o u \o ":" \o x
+      T(k) == TargetDef(I, k, r.home, Ref(r.m, r.n))
+      rp == RPos(I, r)
+      idl == Node(lp("rf") \o sub("id"), "l", "", "", {}) IN
+  CASE r.k = "grouping" ->
+         (CASE rp = "list" -> {Node(P \o sub("rq"), "list", "", "", {}), Node(P \o sub("rq") \o sub("id"), "l", "", "", {})}
+                              \cup GExp(I, T("grouping"), P \o sub("rq"), u, "")
+            [] rp = "rpc" -> GExp(I, T("grouping"), "#" \o u \o ":rr/input", u, "")
+            [] rp = "notification" -> GExp(I, T("grouping"), "#" \o u \o ":rn", u, "")
+            [] OTHER -> GExp(I, T("grouping"), P, u, ""))
+    [] r.k = "typedef"  -> {Node(lp("rt"), IF rp = "leaf-list" THEN "leaf-list" ELSE "l", "", "", {})}
     [] r.k = "subtype"  -> {Node(lp("ru"), "l", "", "", {})}
     [] r.k = "identity" -> {Node(lp("ri"), "l", "", "", Derived(I, DefKey(T("identity"))))}
-    [] r.k = "feature"  -> IF FeatOn(I, T("feature")) THEN {Node(lp("rf"), "l", "", "", {})} ELSE {}
+    [] r.k = "feature"  -> IF ~FeatOn(I, T("feature")) THEN {}
+                           ELSE CASE rp = "container" -> {Node(lp("rf"), "c", "", "", {})}
+                                  [] rp = "list" -> {Node(lp("rf"), "list", "", "", {}), idl}
+                                  [] rp = "leaf-list" -> {Node(lp("rf"), "leaf-list", "", "", {})}
+                                  [] OTHER -> {Node(lp("rf"), "l", "", "", {})}
 \* data nodes written in (or expanded into) module m itself; the nodes of a submodule join the
 \* module that includes it
 SubNodes(I, m) == UNION {{Node("/" \o m \o ":c" \o s, "c", "", "", {}), Node("/" \o m \o ":c" \o s \o "/" \o m \o ":l", "l", "", "", {})}
@@ -183,7 +220,7 @@ Deviated(I, S) ==
   IN {IF rep(x.p) = {} THEN x
       ELSE [x EXCEPT !.d = IF Cardinality(rep(x.p)) = 1 THEN "d" \o (CHOOSE m \in rep(x.p) : TRUE) ELSE "?"]
       : x \in {y \in S : y.p \notin gone}}
-Strip(S) == {[p |-> x.p, t |-> x.t, d |-> x.d, ids |-> x.ids] : x \in S}
+Strip(S) == {[p |-> x.p, t |-> x.t, d |-> x.d, ids |-> x.ids] : x \in {y \in S : SubSeq(y.p, 1, 1) # "#"}}
 
 Verdict(I) == IF RefError(I) THEN "error"
               ELSE IF Collides(UNION {OwnNodes(I, m) : m \in I.mods}) \/ TargetError(I) THEN "error" ELSE "ok"
